@@ -157,3 +157,17 @@ func VerifC19_AppendOnly() {
 }
 
 func VerifC00_InitCost_OK() { zz.Reach("x") }
+
+// VerifC19_EmptyStateIsTotal: the exported "not present" value channels.EmptyChannelState is a
+// channel state the library hands out (GetByID documents returning it): every accessor returns on
+// it, and the 'last' accessors answer the empty value.
+func VerifC19_EmptyStateIsTotal() {
+	cs := EmptyChannelState
+	verifCallAllAccessors(cs)
+	lr := cs.LastVoucherResult()
+	zz.Assert(lr.Type == datatransfer.EmptyTypeIdentifier && lr.Voucher == nil, "LastVoucherResult of the empty state is empty")
+	lv := cs.LastVoucher()
+	zz.Assert(lv.Type == datatransfer.EmptyTypeIdentifier && lv.Voucher == nil, "LastVoucher of the empty state is empty")
+	zz.Assert(len(cs.Vouchers()) == 0 && len(cs.VoucherResults()) == 0, "no log entries")
+	zz.Reach("empty state total")
+}
